@@ -3,9 +3,9 @@
 package fingerproxy
 
 import (
-	"net/http"
 	"context"
 	"crypto/tls"
+	"net/http"
 	"net/url"
 	"strings"
 	"time"
@@ -14,7 +14,7 @@ import (
 	"github.com/wi1dcard/fingerproxy/pkg/metadata"
 )
 
-func VerifE2E_h1() {
+func e2eH1(full bool) {
 	vThreads()
 	preserve, probes := vBool("flag.preserveHost"), vBool("flag.kubernetesProbe")
 	flagPreserveHost, flagEnableKubernetesProbe, flagVerboseLogs = e2eBoolp(preserve), e2eBoolp(probes), e2eBoolp(false)
@@ -35,7 +35,10 @@ func VerifE2E_h1() {
 		close(served)
 	}()
 
-	ver := []uint16{0x0303, 0x0301}[vRange("hello.version", 0, 1)]
+	ver := uint16(0x0303)
+	if full {
+		ver = []uint16{0x0303, 0x0301}[vRange("hello.version", 0, 1)]
+	}
 	cipher := []uint16{0x1301, 0x0a0a}[vRange("hello.cipher", 0, 1)]
 	hb := []byte{byte(ver >> 8), byte(ver)}
 	hb = append(hb, make([]byte, 32)...)
@@ -72,7 +75,10 @@ func VerifE2E_h1() {
 	}
 
 	e2eBackend.n, e2eBackend.header, e2eBackend.body = 0, nil, nil
-	e2eBackend.status = []int{200, 404}[vRange("backend.status", 0, 1)]
+	e2eBackend.status = 200
+	if full {
+		e2eBackend.status = []int{200, 404}[vRange("backend.status", 0, 1)]
+	}
 	e2eBackend.respBody = vBytes("backend.body", 2)
 
 	c := newE2EConn()
@@ -160,3 +166,6 @@ func VerifE2E_h1() {
 		vFail("serve-returns-after-context-cancelled")
 	}
 }
+
+func VerifE2E_h1()          { e2eH1(false) }
+func VerifE2E_h1_thorough() { e2eH1(true) }
